@@ -1,6 +1,7 @@
 """UPER: binding of the Coq model Per/UperImpl.v for the generic drivers."""
 import gen_asn1 as G
 
+GENERIC = True      # usable by the generic drivers of codec_common
 CODEC = 'uper'
 COQ_IMPORTS = ['Base.Bits', 'Base.Utf8', 'Per.UperImpl']
 
